@@ -22,6 +22,9 @@ TEXT_POOL = [
     # tokens specific to this machine / user / directory (filled in when the working directory is built)
     'host {HOST} up', 'connect to {IP} ok', 'user {USER} logged in', 'home {HOME}/notes', 'cwd: {CWD}/f.txt', '{USER}@{HOST}:{CWD}$',
     '{IP}', '{HOME}',
+    # today's date (a deterministic command may well print it): a handful of them, and more than the generator lists one by one
+    'run of {TODAY}', '{TODAY} 08:00:00 start', 'from {TODAY} to {TODAY}',
+    '{TODAY} a\n{TODAY} b\n{TODAY} c\n{TODAY} d\n{TODAY} e\n{TODAY} f',
     # log lines stamped long ago: nothing about them is specific to the time of generation
     '2019-03-04 12:00:01 processed seventeen records', '1999-12-31 23:59:59 rollover ok', '04/03/2009 08:15:00 job done',
     '15 Jan 1999 10:00:00 start', 'finished at 2001-09-09 01:46:40 exactly',
@@ -50,7 +53,9 @@ def subst(text, d):
             ip = socket.gethostbyname(host)
         except Exception:   # noqa
             ip = '127.0.0.1'
-        _TOKENS = {'{HOST}': host, '{IP}': ip, '{USER}': getpass.getuser(), '{HOME}': os.path.expanduser('~')}
+        import datetime as _dt
+        _TOKENS = {'{HOST}': host, '{IP}': ip, '{USER}': getpass.getuser(), '{HOME}': os.path.expanduser('~'),
+                   '{TODAY}': _dt.date.today().isoformat()}
     for k, v in _TOKENS.items():
         text = text.replace(k, v)
     return text.replace('{CWD}', os.path.abspath(d))
@@ -73,13 +78,16 @@ def gen_case(rng):
     files = []
     for j in range(rng.choice([0, 0, 1, 1, 2, 3])):
         kind = rng.choice(['text', 'text', 'binary'])
+        bom_latin1 = kind == 'text' and rng.random() < 0.06
         how = rng.choice(['explicit', 'explicit', 'dir', 'glob', 'sibling'])
         ext = {'text': rng.choice(['.txt', '.csv', '.log', '.json', '']), 'binary': rng.choice(['.bin', '.dat', '.png'])}[kind]
         name = 'out%d%s' % (j, ext)
         if rng.random() < 0.2:
             # names with capitals, names that differ from a reserved test name only in case
             name = rng.choice(['Out%d%s' % (j, ext), 'OUT%d%s' % (j, ext.upper()), 'Stdout', 'STDERR', 'Exit_Code',
-                               'No_Exception', 'Summary%d%s' % (j, ext), 'stdout%s' % ext])
+                               'No_Exception', 'Summary%d%s' % (j, ext), 'stdout%s' % ext,
+                               # dot files are outputs like any other
+                               '.manifest%d' % j, '.out%d%s' % (j, ext), '.hidden%d' % j])
         if kind == 'text':
             content = gen_text(rng)
             if rng.random() < 0.1:
@@ -91,6 +99,9 @@ def gen_case(rng):
         else:
             content = bytes(rng.randrange(256) for _ in range(rng.choice([0, 1, 8, 64, 4096, 8192]))).hex()
         fl = {'name': name, 'kind': kind, 'how': how, 'content': content}
+        if bom_latin1 and name.endswith(('.txt', '.csv', '.log')):
+            # a text file in a legacy encoding behind a UTF-8 byte-order mark (bytes given in hex)
+            fl['raw_hex'] = (b'\xef\xbb\xbf' + 'caf\u00e9 au lait\nprix: 12 \u00a3\nna\u00efve\n'.encode('latin-1')).hex()
         if any(target_of(f) == target_of(fl) for f in files):
             fl['name'] = 'n%d_%s' % (j, name)       # (two outputs of one command are two files)
         files.append(fl)
@@ -130,7 +141,20 @@ def gen_case(rng):
             'preexisting': rng.random() < 0.25, 'preserve_times': rng.random() < 0.3,
             'old_bystanders': rng.random() < 0.3,
             # another generated test (test_cmd.py with its reference directory ref/cmd) is already there
-            'prior_test': rng.random() < 0.25}
+            'prior_test': rng.random() < 0.25, 'echo_tmpdir': rng.random() < 0.12}
+
+
+def echoes_tmpdir(case):
+    """whether the command also prints a line holding $TMPDIR: only with two or more runs (a single run generates no
+    exclusions at all, by design) and only when the rest of the stream is printable text: a control character such as a
+    form feed makes utils.FileType call the stream binary (chardet's confidence drops under the threshold), a binary
+    stream gets no exclusions, and the line then differs on the next run - outside the property's quantifier
+    ("any printable/unicode text")"""
+    if not case.get('echo_tmpdir') or case.get('iterations', 2) < 2:
+        return False
+    if case['stdout'] and not case['stdout'].endswith('\n'):
+        return False            # (the line would join the last line of the stream, which then holds $TMPDIR and is excluded)
+    return not any(ord(c) < 32 and c not in '\n\t' for c in case['stdout'])
 
 
 def target_of(fl, base='w'):
@@ -165,12 +189,16 @@ def build_dir(case, d):
         parts.append('printf %s ' + sh_quote(subst(case['stdout'], d)))
     else:
         parts.append('cat in_out')
+    if echoes_tmpdir(case):
+        parts.append('echo "scratch area: $TMPDIR/x"')       # (the generator points TMPDIR at a directory of its own)
     parts.append('cat in_err >&2')
     refs = []
     for fi, fl in enumerate(case['files']):
         src = src_of(fl, fi)
         mode = 'wb'
         data = subst(fl['content'], d).encode('utf-8') if fl['kind'] == 'text' else bytes.fromhex(fl['content'])
+        if fl.get('raw_hex') and case.get('iterations', 2) >= 2:
+            data = bytes.fromhex(fl['raw_hex'])
         with open(os.path.join(d, src), mode) as f:
             f.write(data)
         target = target_of(fl, os.path.basename(d))
